@@ -1250,12 +1250,39 @@ package stun
 //@   pure
 //@   ensures result <==> Secure(u.Scheme)
 
-// NewClient is assumed here (its body starts goroutines); the only fact DialURI needs is which connection the client holds.
-//@ extern NewClient(conn, options)
+// NewClient: establishes ClientReady. Options are arbitrary function values; the contract below is what the options of
+// this package do (each sets one configuration field) and what a user-supplied option is assumed to respect: it
+// configures the client, it does not touch the connection slot's siblings created by NewClient (stop channel, table,
+// mutex, closed flag).
+//@ func ClientOption(o, c)
+//@   requires c != nil
+//@   assigns c.handler, c.rto, c.clock, c.rtoRate, c.a, c.collector, c.closeConn, c.maxAttempts, c.c
+//@   allocates
+//@   ensures c.clock != nil && c.maxAttempts < 2147483646
+//@ func ClientAgent.SetHandler(a, h)
 //@   pure
 //@   allocates
+//@ func Collector.Start(a, rate, f)
+//@   pure
+//@   allocates
+//@ func NewClient
+//@   safety C10 C15 C17
+//@   props C10 C15 C17
+//@   requires forall(i, 0, len(options), options[i] != nil)
+//@   assigns ghost(wg_adds), gmap(held), gmap(chclosed)
+//@   allocates
 //@   ensures result1 != nil ==> result0 == nil
-//@   ensures result1 == nil && len(options) == 0 ==> result0 != nil && fresh(result0) && result0.c == conn
+//@   ensures result1 == nil ==> result0 != nil && fresh(result0) && ClientReady(result0) && Init(result0) && !result0.closed
+//@   ensures result1 == nil ==> gmap(chclosed)[result0.close] == 0 && forallkey(k, !haskey(result0.t, k))
+//@   ensures result1 == nil && len(options) == 0 ==> result0.c == conn && result0.closeConn && result0.maxAttempts == 7 && result0.rto == 300000000
+//@   loop 0
+//@     assigns *client
+//@     invariant -1 <= rangeindex && (rangeindex < len(options) || len(options) == 0 && rangeindex == -1)
+//@     invariant client != nil && fresh(client) && client.clock != nil && client.maxAttempts < 2147483646 && !client.closed
+//@     invariant region(client.t) != 0 && fresh(client.t) && forallkey(k, !haskey(client.t, k)) && client.close != nil && gmap(chclosed)[client.close] == 0
+//@     invariant gmap(held)[region(client)] == 0
+//@     invariant len(options) == 0 ==> client.c == conn && client.closeConn && client.maxAttempts == 7 && client.rto == 300000000
+//@     decreases len(options) - rangeindex
 
 // DialURI: which transport is requested from the network layer for which (scheme, transport) pair.
 //@ define Addr(uri) = jhp(uri.Host, itoa(uri.Port))
@@ -1268,7 +1295,7 @@ package stun
 //@   safety C17
 //@   props C17
 //@   requires uri != nil && cfg != nil
-//@   assigns ghost(dial_n), gmap(dial_net), gmap(dial_addr), gmap(dial_conn), ghost(wrap_n), gmap(wrap_kind), gmap(wrap_inner), gmap(wrap_sni), gmap(wrap_out), gmap(udp_src), cfg.TLSConfig.ServerName, cfg.DTLSConfig.ServerName
+//@   assigns ghost(dial_n), gmap(dial_net), gmap(dial_addr), gmap(dial_conn), ghost(wrap_n), gmap(wrap_kind), gmap(wrap_inner), gmap(wrap_sni), gmap(wrap_out), gmap(udp_src), cfg.TLSConfig.ServerName, cfg.DTLSConfig.ServerName, ghost(wg_adds), gmap(held), gmap(chclosed)
 //@   allocates
 //@   ensures result1 != nil ==> result0 == nil
 //@   ensures result1 == nil ==> result0 != nil
